@@ -59,7 +59,7 @@ func codecChild() {
 	fmt.Printf("RES ok %d %d %d\n", n, ads.TimeslotOffset, len(ads.Devices))
 }
 
-const ccChildLimitKB = 2 * 1024 * 1024 // address space of the child: 2 GB
+var ccChildLimitKB = 2 * 1024 * 1024 // address space of the child: 2 GB (doubled when the runtime cannot start under it)
 
 // ccRunStreamChild decodes b with the real stream decoder in a child process.
 // class: "ok" | "err" | "fatal" (the process died or did not answer).
@@ -291,6 +291,7 @@ type codecRun struct {
 	tier   string
 	outDir string
 	items  []string          // cases of the current file
+	base   string            // name stem of the current cases file (auto-sharding in add)
 	size   int               // bytes of the current file
 	files  int               // cases files written
 	sbSeen map[string]string // signing bytes -> "type|canonical signed fields"
@@ -303,6 +304,11 @@ func (c *codecRun) add(class string, desc map[string]interface{}, canon string, 
 	c.res.Case(desc, class+canon, nontrivial)
 	c.items = append(c.items, item)
 	c.size += len(item)
+	if c.size > 300000 && c.base != "" { // keep every cases file well under 1 MB
+		if err := c.flush(fmt.Sprintf("%s_%d", c.base, c.files)); err != nil {
+			panic(err)
+		}
+	}
 }
 
 func (c *codecRun) flush(name string) error {
@@ -420,15 +426,17 @@ func codecSuite(seed uint64, tier, outDir string) (*core.Result, error) {
 		}()
 		f()
 	}
+	c.base = "cases_codec_fixed"
 	phase("known-answer vectors", c.golden)
 	phase("report", func() { c.reports(40 * scale) })
 	phase("authorization", func() { c.auths(30 * scale) })
 	phase("registration", func() { c.registrations(10 * scale) })
 	phase("authorized server", func() { c.aservers(20 * scale) })
 	phase("migration", func() { c.migrations(8 * scale) })
-	if err := c.flush("cases_codec_fixed"); err != nil {
+	if err := c.flush(fmt.Sprintf("cases_codec_fixed_%d", c.files)); err != nil {
 		return nil, err
 	}
+	c.base = ""
 	if err := c.serverMaps(scale); err != nil {
 		return nil, err
 	}
@@ -1080,6 +1088,16 @@ func (c *codecRun) stats(scale int) error {
 			hostile = append(hostile, h)
 		}
 	}
+	// the child must be able to run at all under the address-space limit: a benign input first
+	for ccChildLimitKB = 2 * 1024 * 1024; ; ccChildLimitKB *= 2 {
+		if class, _, _ := ccRunStreamChild(make([]byte, 72)); class == "ok" {
+			break
+		}
+		if ccChildLimitKB > 64*1024*1024 {
+			return fmt.Errorf("the child process cannot decode a benign input under any address-space limit")
+		}
+	}
+	c.res.Extra["child_address_space_kb"] = ccChildLimitKB
 	for _, in := range hostile {
 		class, n, detail := ccRunStreamChild(in)
 		obs := "OErr"
